@@ -134,6 +134,8 @@ def _discharge_forked(ex, obls, timeout, all_backends, nproc=8):
 
 if __name__ == "__main__":
     load_contracts()
+    for _w in filter(None, os.environ.get("PYVC_WIP", "").split(",")):      # work-in-progress sidecars (contracts/_*.py) are opt-in
+        importlib.import_module("contracts." + _w)
     from . import dsl
     pid = sys.argv[1]
     p = dsl.REG.props[pid]
